@@ -95,10 +95,12 @@ func (ex *Exec) indexAddr(s *State, fr *Frame, x *ssa.IndexAddr) Value {
 		case PSlotArr, PByteArr:
 			ex.boundsCheck(s, fr, idx, IntC(int64(b.N)), x)
 			k := PSlot
+			var ext Term
 			if b.Kind == PByteArr {
 				k = PByte
+				ext = ISub(IntC(int64(b.N)), idx)
 			}
-			return PtrV{Kind: k, Obj: b.Obj, Idx: IAdd(b.Idx, idx), Elem: ex.elemOf(x.X.Type())}
+			return PtrV{Kind: k, Obj: b.Obj, Idx: IAdd(b.Idx, idx), Elem: ex.elemOf(x.X.Type()), Ext: ext}
 		case PGlobal:
 			c, ok := idx.IntConst()
 			if !ok {
@@ -548,6 +550,29 @@ func (ex *Exec) sliceOp(s *State, fr *Frame, x *ssa.Slice) Value {
 			base = PtrV{Kind: PByteArr, Obj: obj, Idx: IntC(0), N: int(at.Len()), Elem: g.Elem}
 		}
 	}
+	if lp, ok := base.(PtrV); ok && (lp.Kind == PCell || lp.Kind == PSub) {
+		// slice of a local array (append's varargs): a sequence holding the array's elements
+		if av, isArr := ex.loadPtr(s, lp).(ArrV); isArr && !hasLo && !hasHi && !hasMax {
+			if isNodeRef(av.Elem) {
+				sq := ex.zero(types.NewSlice(av.Elem)).(SliceV)
+				for i, e := range av.Elems {
+					sv := e.(StructV)
+					sq.SeqP = Store(sq.SeqP, IntC(int64(i)), sv.Fields["pointer"].(RefV).T)
+					sq.SeqT = Store(sq.SeqT, IntC(int64(i)), sv.Fields["tag"].(IntV).T)
+				}
+				sq.Len = IntC(int64(len(av.Elems)))
+				return sq
+			}
+			if _, _, isInt := intInfo(av.Elem); isInt && !isByteType(av.Elem) {
+				sq := ex.zero(types.NewSlice(av.Elem)).(SliceV)
+				for i, e := range av.Elems {
+					sq.SeqT = Store(sq.SeqT, IntC(int64(i)), ex.idxTerm(e.(IntV)))
+				}
+				sq.Len = IntC(int64(len(av.Elems)))
+				return sq
+			}
+		}
+	}
 	switch b := base.(type) {
 	case PtrV:
 		if b.Kind == PSlotArr || b.Kind == PByteArr {
@@ -568,8 +593,8 @@ func (ex *Exec) sliceOp(s *State, fr *Frame, x *ssa.Slice) Value {
 		}
 	case SliceV:
 		limit := b.Cap
-		if b.IsStr {
-			limit = b.Len
+		if b.IsStr || b.Kind == SlSeq {
+			limit = b.Len // sequences carry no capacity: re-slicing never extends them
 		}
 		if !hasHi {
 			hi = b.Len
